@@ -178,7 +178,7 @@ func staleLeaseCase(h *harness.H, c int, sp split) string {
 		bVal[k] = wb.Value
 	}
 	for _, k := range loseKeys {
-		ks, ok := cl.WaitKey(ctx, A, k, wd, func(s aspenkit.KeyState) bool { return s.Present && s.Value == bVal[k] })
+		ks, ok := cl.WaitKey(ctx, A, k, wd, func(s aspenkit.KeyState) bool { return s.HasDigest && s.Present && s.Value == bVal[k] })
 		if !ok {
 			return "B's-write-did-not-reach-A"
 		}
@@ -199,6 +199,13 @@ func staleLeaseCase(h *harness.H, c int, sp split) string {
 	for _, k := range loseKeys {
 		for cl.Net.Received(cl.Nodes[A].Addr, k, before[k].Version) < recvBase[k]+3 {
 			if time.Now().After(deadline) {
+				inf, _ := cl.Infected(ctx, B)
+				var is []string
+				for _, op := range inf {
+					is = append(is, fmt.Sprintf("%s@v%d", op.Key, int64(op.Version)))
+				}
+				fmt.Printf("NOTE: directed case %d: key %s v%d received-by-A %d (base %d); B infected %v; B offered it %d times; feedback held for B %d\n", c, k, before[k].Version,
+					cl.Net.Received(cl.Nodes[A].Addr, k, before[k].Version), recvBase[k], is, cl.Net.Gossiped(cl.Nodes[B].Addr, k, before[k].Version), cl.Net.HeldFeedbackCount(cl.Nodes[B].Addr, k, before[k].Version))
 				return "B's-op-not-offered-again"
 			}
 			time.Sleep(cl.P.KVInterval)
@@ -288,8 +295,8 @@ func staleLeaseCase(h *harness.H, c int, sp split) string {
 		// exactly the win keys here (kb and the lose keys are led by B).
 		var ur []aspenkit.Notification
 		for _, e := range logs["OnChange"] {
-			if e.Key == "kb" || isLose[e.Key] {
-				ur = append(ur, e)
+			if (e.Key == "kb" || isLose[e.Key]) && (e.Del || e.Value != aVal[e.Key]) {
+				ur = append(ur, e) // (A's own value on a lose key would belong to A's host-led tx)
 			}
 		}
 		fe := logs["IgnoreHostLeaseholder"]
